@@ -185,6 +185,27 @@ func c11Project(orig *imagev1.Image, excludeImports, excludeSourceInfo bool) *im
 func c11Run(c *core.C, idx int) {
 	s := gen.Generate(c.Rand, c11Config(c))
 	c01Decorate(c, s)
+	// A legacy construct in the scope that declares the custom options: an extension of a message-set message with
+	// a tag above 2^29-1 (legal only there), declared AFTER the option extensions of the same scope. `buf build`
+	// accepts it; `buf lint` and `buf breaking` refuse any schema with a message set (protobuf-go: "MessageSet …
+	// no longer supported", reported as a system error), so part (4) is skipped for these cases.
+	messageSet := false
+	if c.Rand.IntN(4) == 0 {
+		for _, f := range s.AllFiles() {
+			if strings.HasSuffix(f.Path, "/opts.proto") && f.Syntax == "proto2" && len(f.Extends) > 0 {
+				f.Messages = append(f.Messages,
+					&gen.Message{Name: "LegacySet", Comment: "LegacySet is a message set.", Options: []gen.Opt{{Name: "message_set_wire_format", Value: "true"}},
+						ExtRanges: []gen.Range{{Lo: 4, Hi: 2147483646}}},
+					&gen.Message{Name: "LegacyItem", Comment: "LegacyItem is a message-set item.", Fields: []*gen.Field{
+						{Name: "note", Number: 1, Label: "optional", Kind: "scalar", Type: "string", Comment: "Note."}}})
+				f.Extends = append(f.Extends, &gen.Extend{Extendee: f.Package + ".LegacySet", Fields: []*gen.Field{
+					{Name: "legacy_item", Number: 536870999, Label: "optional", Kind: "message", Type: f.Package + ".LegacyItem", Comment: "A message-set extension."}}})
+				messageSet = true
+				c.Count("workspaces_with_message_set_extension", 1)
+				break
+			}
+		}
+	}
 	dirty := c.Rand.IntN(2) == 0
 	if dirty {
 		c11Dirty(c, s)
@@ -427,6 +448,10 @@ func c11Run(c *core.C, idx int) {
 	}
 
 	// ---- (4) lint and breaking on image vs sources --------------------------------------
+	if messageSet {
+		c.Nontrivial(fmt.Sprintf("%s dirty=%v message-set", s.Describe(), dirty))
+		return
+	}
 	var modDirs []string
 	for _, m := range s.Modules {
 		modDirs = append(modDirs, m.Dir)
